@@ -199,6 +199,16 @@ func e2eRun(c *Ctx, seed int64, spec *e2eSpec, dir string) *e2eOutcome {
 			w.writeSource(f.Name, append(append([]byte{}, cur.Data...), randBytes(rng, 1+rng.Int63n(200))...), now)
 		case "touch":
 			w.writeSource(f.Name, cur.Data, now)
+		case "rewrite-older": // other content, same size, an OLDER modification time (restore from backup, cp -p, rsync -t)
+			if _, err := os.Stat(filepath.Join(w.outDir, f.Name)); err != nil {
+				return
+			}
+			w.writeSource(f.Name, randBytes(rng, int64(len(cur.Data))), cur.MTime.Add(-time.Duration(1+rng.Intn(6000))*time.Second))
+		case "touch-older": // same content, older modification time
+			if _, err := os.Stat(filepath.Join(w.outDir, f.Name)); err != nil {
+				return
+			}
+			w.writeSource(f.Name, cur.Data, cur.MTime.Add(-time.Duration(1+rng.Intn(6000))*time.Second))
 		case "replace": // other size
 			w.writeSource(f.Name, randBytes(rng, 1+rng.Int63n(int64(len(cur.Data))*2+1)), now)
 		case "inplace": // content changes while size and mtime stay: invisible to the sender's change detection
